@@ -780,6 +780,8 @@ def call_builtin(self, st, name, args, kwargs, node):
             return [(st, "val", LenOf(v.name))]
         if isinstance(v, Top):
             return [(st, "val", Top("len:" + v.tag, v.input))]
+        if hasattr(v, "abs_call") and hasattr(v, "tag"):
+            return [(st, "val", Top("int:len:" + v.tag, True))]      # an abstract string: some length
         raise U("len(%r) at %s" % (v, self.loc(node)))
     if name in ("set", "frozenset", "list", "tuple", "sorted", "reversed", "iter"):
         if not args:
